@@ -51,7 +51,7 @@ class Workspace:
             d = os.path.join("buildpacks", pkg) if i % 2 == 0 else os.path.join("nested", "deep", pkg)
             nb = 1 + (i % 3)
             bins = [pkg] + [f"extra-{i}-{k}" for k in range(nb - 1)]
-            if nb == 1 and i % 2 == 1:
+            if nb == 1 and (i // 3) % 2 == 0:
                 bins = [f"only-bin-{i}"]   # a single target need not be named like the package
             self.crates[bid] = {"dir": d, "pkg": pkg, "bins": bins, "main": bins[0], "rev": 0}
             members.append(d)
